@@ -9,6 +9,7 @@ independent canonical form) is measured per pass and < 20 % is inconclusive."""
 from __future__ import annotations
 
 import random
+import signal
 
 from xv.harness import shash
 
@@ -32,13 +33,24 @@ ASSUMPTIONS = ["refsem's UB model: division by zero / signed overflow division, 
                "memref access and observed poison are undefined; inputs on which the SOURCE is undefined are excluded",
                "a pass that raises did not accept the program (counted as rejected, not a violation)",
                "external calls are deterministic functions of (name, args) and are ordered effects"]
-JOB_TIMEOUT = {"quick": 600, "thorough": 3000}
+JOB_TIMEOUT = {"quick": 3000, "thorough": 14000}
 
 PASSES = ["convert-scf-to-cf", "lower-affine", "scf-for-loop-range-folding", "scf-for-loop-flatten",
           "scf-for-loop-unroll", "licm", "control-flow-hoist", "frontend-desymrefy"]
 N_INPUTS = 8
 SRC_STEPS = 15000
 # ops declared Pure (always speculatable) in xdsl.dialects.arith although they trap on a zero / -1 divisor
+PASS_CPU_LIMIT = 60.0
+
+
+class _CpuLimit(BaseException):
+    pass
+
+
+def _on_cpu_limit(signum, frame):
+    raise _CpuLimit()
+
+
 TRAP_PURE = ("arith.floordivsi", "arith.ceildivsi", "arith.remsi")
 
 
@@ -84,7 +96,7 @@ def _structured_in_while(module):
 
 
 # ------------------------------------------------------------------------------------------ classification
-def classify(pn, out0, m_src, out1, m_tgt, src_mod):
+def classify(pn, out0, m_src, out1, m_tgt, src_mod, row=None):
     """Mechanism key for a before/after disagreement. Known wrong-behaviour models are confirmed on the observed
     executions (flags raised by the reference machine's hooks); everything else gets a generic key."""
     kind = "introduces-ub" if out1[0] == "undef" else "diverges" if out1[0] == "steps" else \
@@ -113,13 +125,22 @@ def classify(pn, out0, m_src, out1, m_tgt, src_mod):
             if h is not None and in_src and (f.name, h) not in m_src.trap_executed:
                 return pn + ":speculates-trapping-op-declared-pure"
     elif pn == "lower-affine":
-        if "affine-mod-negative-lhs" in m_src.flags:
-            return pn + ":mod-of-negative-lowered-to-remsi"
+        if "affine-mod-negative-lhs" in m_src.flags and row is not None:
+            # executable model of the known wrong behaviour: the source with `mod` evaluated as arith.remsi must
+            # behave exactly like the pass output on this input
+            from xv.c16_ref import run16
+            model, mm = run16(src_mod, "main", row, SRC_STEPS, mod_trunc=True)
+            if model == out1 or (model[0] == "undef" and out1[0] == "undef") or \
+                    (out1 == ("undef", "out of bounds") and "model-oob-load" in mm.flags):
+                return pn + ":mod-of-negative-lowered-to-remsi"
     elif pn == "convert-scf-to-cf":
         if "index-switch-arg-outside-i32" in m_src.flags:
             return pn + ":index-switch-arg-truncated-to-i32"
     elif pn == "frontend-desymrefy":
-        if _symref_nested_use(src_mod) and _symref_dangling(m_tgt.module):
+        # model of the known wrong behaviour: the output is undefined exactly when a symref op left behind in a
+        # nested region executes; an output that is defined but different is NOT covered by the known finding
+        if out1 == ("undef", "use of undeclared symbol") and _symref_nested_use(src_mod) and \
+                _symref_dangling(m_tgt.module):
             return pn + ":nested-region-use-not-promoted"
     return f"{pn}:{kind}"
 
@@ -165,13 +186,26 @@ def run_case(cx, pn, case, inputs, res, want_sample=False):
     cnt(f"programs:{pn}")
     c0 = canon_ir(m0, with_hints=False)
     try:
-        cx.passes[pn]().apply(cx.ctx, m1)
+        # CPU-time (not wall-clock) watchdog: a pass application costs milliseconds; 60 s of process CPU is a hang
+        signal.signal(signal.SIGVTALRM, _on_cpu_limit)
+        signal.setitimer(signal.ITIMER_VIRTUAL, PASS_CPU_LIMIT)
+        try:
+            cx.passes[pn]().apply(cx.ctx, m1)
+        finally:
+            signal.setitimer(signal.ITIMER_VIRTUAL, 0)
+    except _CpuLimit:
+        cnt(f"accepted:{pn}")
+        viol(f"pass:{pn}:hang", f"{pn} used more than {PASS_CPU_LIMIT} s of CPU on a {len(text)}-character program")
+        return
     except Exception as e:  # noqa: BLE001 - the pass rejected the program
         cnt(f"rejected:{pn}")
         cnt(f"rejected:{pn}:{type(e).__name__}")
         res["sets"].setdefault("rejections", set()).add(f"{pn}:{type(e).__name__}:{str(e)[:60]}")
         return
     cnt(f"accepted:{pn}")
+    changed = canon_ir(m1, with_hints=False) != c0
+    if changed:
+        cnt(f"changed:{pn}")
     try:
         m1.verify()
     except (VerifyException, Exception) as e:  # noqa: BLE001
@@ -181,12 +215,11 @@ def run_case(cx, pn, case, inputs, res, want_sample=False):
             key = f"pass:{pn}:verify:scf.while-not-lowered-region-multiblock"
         viol(key, f"{pn} output does not verify: {msg.strip().splitlines()[-1][:200] if msg.strip() else type(e).__name__}")
         return
-    changed = canon_ir(m1, with_hints=False) != c0
-    if changed:
-        cnt(f"changed:{pn}")
     compared = 0
     for row in inputs:
         out0, ms = run16(m0, "main", row, SRC_STEPS)
+        if out0[0] == "badir":
+            raise RuntimeError("generator produced IR with a use before def: " + out0[1] + "\n" + text)
         if out0[0] != "ok":
             cnt({"undef": "excluded_source_undefined", "steps": "excluded_source_step_limit",
                  "unsup": "excluded_source_unsupported"}[out0[0]])
@@ -198,6 +231,10 @@ def run_case(cx, pn, case, inputs, res, want_sample=False):
             cnt("target_unsupported")
             res["sets"].setdefault("unsupported", set()).add("target:" + out1[1][:60])
             continue
+        if out1[0] == "badir":
+            viol(f"pass:{pn}:output-uses-undefined-value", f"{pn} output verifies but uses a value that is not "
+                 f"defined where it is used: {out1[1]}", {"input": row, "after_program": str(m1)[:6000]})
+            break
         compared += 1
         cnt(f"comparisons:{pn}")
         cnt("effects_compared", len(out0[2]))
@@ -212,7 +249,7 @@ def run_case(cx, pn, case, inputs, res, want_sample=False):
                 # that the pass speculated. Counted, not judged.
                 cnt("excluded_speculated_scf_if_on_poison")
                 continue
-            key = classify(pn, out0, ms, out1, mt, m0)
+            key = classify(pn, out0, ms, out1, mt, m0, row)
             viol(key, f"{pn}: input {row} gives {_short(out0)} before and {_short(out1)} after",
                  {"input": row, "before": _short(out0), "after": _short(out1), "after_program": str(m1)[:6000]})
     if compared:
@@ -231,7 +268,7 @@ def _short(out):
 
 # ------------------------------------------------------------------------------------------ harness interface
 def plan(tier, seed):
-    per_pass, shards = (300, 4) if tier == "quick" else (12000, 8)
+    per_pass, shards = (300, 4) if tier == "quick" else (10000, 8)
     jobs = []
     import os
     only = [x for x in os.environ.get("XV_C16_ONLY", "").split(",") if x]  # mutant self-tests: subset of passes
@@ -259,15 +296,6 @@ def work(job):
             run_case(cx, pn, case, inputs, res, want_sample=(i < 2))
     res["sets"] = {k: sorted(v) for k, v in res["sets"].items()}
     return res
-
-
-def on_lost(info):
-    j = info.get("journal") or ""
-    if info.get("status") == "timeout" and j:
-        pn = j.splitlines()[0]
-        return [{"key": f"pass:{pn}:hang", "summary": f"{pn} (or the reference run of its output) did not terminate",
-                 "witness": {"pass": pn, "program": j.split("\n", 1)[1] if "\n" in j else ""}}]
-    return None
 
 
 def finish(agg, tier):
